@@ -890,6 +890,14 @@ def graph_walks(repo):
         calls = set(re.findall(r"\b([A-Za-z_]\w*)\s*\(", b))
         only = len(re.findall(r"\b" + rec + r"\s*\(", b)) == 1
         out.append((fn, bool(g and only and not (calls & bumpers))))
+    # exp2cxx TYPEselect_print: selects that contain each other through named aggregates (legal) or rename each other;
+    # the tag stored as client data is the mark, put before any item is looked at
+    t = _strip_comments(_read(repo, "src/exp2cxx/selects.c"))
+    b = _functions(t).get("TYPEselect_print", "")
+    g = re.search(r"if\s*\(\s*(?:\(\s*tmp\s*=\s*\(\s*SelectTag\s*\)\s*)?TYPEget_clientData\s*\(\s*t\s*\)\s*\)?\s*\)\s*\{.*?return\s*;\s*\}", b, re.S)
+    put = re.search(r"TYPEput_clientData\s*\(\s*t\s*,", b)
+    rec = b.find("TYPEselect_print(")
+    out.append(("TYPEselect_print", bool(g and put and g.end() <= put.start() and rec > put.end())))
     # TYPE_resolve_: defined types that refer to each other (TYPE a = b; TYPE b = a; / aggregates / selects)
     t = _strip_comments(_read(repo, "src/express/resolve.c"))
     b = _body(t, r"static\s+void\s+TYPE_resolve_\s*\([^)]*\)\s*\{", "TYPE_resolve_")
